@@ -134,8 +134,8 @@ func ruleRoundTable(c *Ctx) {
 	env := p.newCanonEnv(fd)
 	got := env.canonStmt(ifAdj)
 	lim := coefLimitHi()
-	carry := fmt.Sprintf("if((L1[K(1)]>K(%d))){if((P5!=K(0))){P4=K(1)};P2,P5=call(uint128.div10;recv=P2);P3++;continue};P2=L1", lim)
-	wantHead := "if((L0!=K(0))){var L1 uint128;if((L0==K(1))){"
+	carry := fmt.Sprintf("if((L1[K(1)]>K(%d))){if((K(0)!=P5)){P4=K(1)};P2,P5=call(uint128.div10;recv=P2);P3++;continue};P2=L1", lim)
+	wantHead := "if((K(0)!=L0)){var L1 uint128;if((K(1)==L0)){"
 	okCarry := strings.HasPrefix(got, wantHead) && strings.HasSuffix(got, carry+"}")
 	c.check(okCarry, "round.carry", ifAdj, "on coefficient overflow: fold guard digit into sticky, sig/10, exp++, re-decide",
 		"round: after the adjustment overflows the coefficient limit the code must fold the old guard digit into the sticky flag, divide by ten, increment the exponent and decide again; found "+got,
@@ -169,7 +169,7 @@ func ruleRoundTable(c *Ctx) {
 				el = env.canonStmts(eb.List)
 			}
 			const add, sub = "call(uint128.add64;recv=P2,K(1))", "call(uint128.sub64;recv=P2,K(1))"
-			okArms = a == "(L0==K(1))" && strings.Contains(th, add) && !strings.Contains(th, sub) && strings.Contains(el, sub) && !strings.Contains(el, add)
+			okArms = a == "(K(1)==L0)" && strings.Contains(th, add) && !strings.Contains(th, sub) && strings.Contains(el, sub) && !strings.Contains(el, add)
 		}
 	}
 	c.check(okArms, "round.arms", ifAdj, "adjust == 1 adds, otherwise subtracts", "round: the +1 arm must add and the other arm subtract: "+dbgArm, "C01", "C02", "C03", "C08")
@@ -372,7 +372,7 @@ func ruleCeilFloor(c *Ctx) {
 			fmt.Sprintf("%s must increment the magnitude only for %s values: condition is %s, want %s", t.fn, map[string]string{"Decimal.Ceil": "positive", "Decimal.Floor": "negative"}[t.fn], gotCond, wantCond))
 		body := env.canonStmts(incr.Body.List)
 		// for(;trunc!=0;){sig=sig.add64(1);trunc=0;if(sig[1]>LIM){var rem;sig,rem=div10;if(rem!=0){trunc=1};exp++}}
-		okBody := strings.HasPrefix(body, "for(;(") && strings.Contains(body, "!=K(0));){") &&
+		okBody := strings.HasPrefix(body, "for(;(K(0)!=") &&
 			strings.Contains(body, "=call(uint128.add64;recv=") && strings.Contains(body, ",K(1));") &&
 			strings.Contains(body, fmt.Sprintf(">K(%d))){", lim)) && strings.Contains(body, "call(uint128.div10;recv=") && strings.HasSuffix(body, "++}}")
 		c.check(okBody, "incr.body:"+t.fn, incr, "while inexact: add one unit, clear sticky, renormalise on overflow with exponent +1",
